@@ -40,7 +40,7 @@ pub struct C06;
 
 /// stack-discipline failures: the runtime found fewer pending operands / inputs / frames than an
 /// instruction needs. Any of these in a fault-free run means the depth went below zero.
-fn is_underflow(msg: &str) -> bool {
+pub fn is_underflow(msg: &str) -> bool {
     msg.contains("No references in register")
         || msg.contains("Popped StackFrame")
         || msg.contains("Not enough register")
@@ -277,6 +277,7 @@ fn join_binary(l: &str, op: &str, r: &str) -> String {
 /// known-findings matcher, which needs to name a family of inputs precisely:
 /// `else-without-conditional` = an else `|>` whose left operand is not a conditional (nor another else);
 /// `else-chain-without-default` = an else-chain whose last link is itself a conditional;
+/// `expression-without-a-value` = a program without tokens (blanks and annotations aside) or an empty group `( )`;
 /// `reapply-under-operator` = a `^~` that is not an arm of a conditional / else-chain, an operand of `&&` /
 /// `||`, or a whole (sub-)expression, so that operands of enclosing operators are pending when it jumps back.
 pub fn shape_tags(src: &str) -> String {
@@ -286,6 +287,8 @@ pub fn shape_tags(src: &str) -> String {
     let def = |i: usize| nodes.get(i).map(|n| n.get_definition());
     let mut else_bad = false;
     let mut open_chain = false;
+    // no value anywhere: no token at all (blanks and annotations aside), or a group with nothing in it
+    let mut valueless = nodes.iter().all(|n| n.get_definition() == Def::Drop);
     let mut reapply_bad = false;
     for n in nodes.iter() {
         match n.get_definition() {
@@ -301,6 +304,7 @@ pub fn shape_tags(src: &str) -> String {
                     open_chain = true;
                 }
             }
+            Def::Group if n.get_left().is_none() && n.get_right().is_none() => valueless = true,
             Def::Reapply => {
                 let mut cur = n.get_parent();
                 while let Some(pi) = cur {
@@ -320,7 +324,8 @@ pub fn shape_tags(src: &str) -> String {
         }
     }
     format!(
-        "{}{}{}",
+        "{}{}{}{}",
+        if valueless { " shape:expression-without-a-value" } else { "" },
         if else_bad { " shape:else-without-conditional" } else { "" },
         if reapply_bad { " shape:reapply-under-operator" } else { "" },
         if open_chain { " shape:else-chain-without-default" } else { "" }
@@ -525,6 +530,12 @@ impl Campaign for C06 {
         // side-effect block directly after a closing bracket: the parser drops the bracketed value
         v.extend(seeded_scenario("(5) [6]", &[], vec![0]));
         v.extend(seeded_scenario("{ (9 % 2) [i1] }~~", &["i1"], vec![0, 1]));
+        // a program / group without any value emits no instruction of its own: its terminator finds nothing pending
+        v.extend(seeded_scenario("", &[], vec![0]));
+        v.extend(seeded_scenario("@@ only a note", &[], vec![0]));
+        v.extend(seeded_scenario("( )", &[], vec![0]));
+        v.extend(seeded_scenario("5 + ( )", &[], vec![0]));
+        v.extend(seeded_scenario("{ ( ) }~~", &[], vec![0]));
         v.extend(operator_pairs());
         v
     }
